@@ -85,6 +85,9 @@ def build_problem(case):
             rng, ['flow', 'none', 'no_flow']), empty_frac=0.2, max_rings=4,
             length=0.5, vel_range=(0.3, 5.0))
         wl.random_power(rng, P, max_cells=4, max_order=3)
+        for sp in P['power']['asm'].values():
+            sp.pop('zb', None)
+        feats['own_power_meshes'] = wl.own_power_meshes(rng, P, 0.5)
     else:
         P, feats = wl.single_assembly(
             rng, tdep=False, max_rings=5,
